@@ -1,4 +1,5 @@
 import OasisModel.Mkvs.Tree
+import OasisModel.Mkvs.Iter
 /-
 Overlay trees (go/storage/mkvs/overlay.go) and stacks of overlays (C03).
 
@@ -42,6 +43,11 @@ def removeExisting (L : Layer) (innerGet : Bytes → Option Bytes) (k : Bytes) :
 def remove (L : Layer) (k : Bytes) : Layer :=
   { overlay := SMap.erase L.overlay k, dirty := L.markDirty k }
 
+/-- overlay.go:96 `Copy(inner)`: a new overlay with a copy of the dirty set and of the overlay map
+(the inner tree is the given one, or the same one for `nil`). Later writes to either overlay do not
+reach the other; both read through to their inner tree. -/
+def copy (L : Layer) : Layer := { overlay := L.overlay, dirty := L.dirty }
+
 /-- The merge iterator (overlay.go:150-225) as the list of items successive `Next` calls yield.
 `is` = remaining items of the inner iterator, `os` = remaining items of the overlay iterator.
 `updateIteratorPosition` first skips dirty inner items; the current item is the inner one iff it
@@ -84,6 +90,12 @@ specification level here (all live keys ≥ k ascending); its visit-state machin
 def iter (b : TreeState) : List Layer → Bytes → List KV
   | [], k => SMap.seekGE b.root.toList k
   | L :: rest, k => L.iter (iter b rest k) k
+
+/-- The same with the tree iterator as the code writes it (`Iter.iterate`: the visit-state machine
+of iterator.go) at the bottom of the stack. Equal to `iter` (`OasisProofs.C03.stack_iterMachine_eq`). -/
+def iterMachine (b : TreeState) : List Layer → Bytes → List KV
+  | [], k => Iter.iterate b.root k
+  | L :: rest, k => L.iter (iterMachine b rest k) k
 
 def insert (b : TreeState) : List Layer → Bytes → Bytes → TreeState × List Layer
   | [], k, v => (b.insert k v, [])
